@@ -869,7 +869,7 @@ func c05Race() []RaceBody {
 								return
 							}
 						case <-time.After(20 * time.Second):
-							errs <- fmt.Errorf("put %s: no response", key)
+							errs <- fmt.Errorf("put %s: no response within 20 s\n%s", key, allStacks())
 							return
 						}
 					}
